@@ -1953,6 +1953,8 @@ class TensorDict(TensorDictBase):
             raise ValueError(
                 f"dim {dim} is out of range for tensordict with shape {self.shape}."
             )
+        if isinstance(repeats, int) and repeats < 0:
+            raise RuntimeError("Repeats must be non-negative")
         new_batch_size = torch.Size(
             [
                 s if i != dim_corrected else s * repeats
